@@ -305,6 +305,10 @@ class MosekWrapper(Wrapper):
         tau = xx[self.objective.counter]
         self.optimal_F = xx
         problem_status = self.task.getprosta(mosek.soltype.itr)
+        # When MOSEK certifies that the problem is infeasible or unbounded,
+        # the variables contain a certificate, not a solution: there is no worst-case value to return.
+        if problem_status in [mosek.prosta.prim_infeas, mosek.prosta.dual_infeas, mosek.prosta.prim_and_dual_infeas]:
+            tau = None
         return problem_status, self.solver_name, tau
 
     def prepare_heuristic(self, wc_value, tol_dimension_reduction):
